@@ -132,7 +132,12 @@ def check_layout(case, stats):
     # T0 the same characters handed over as another string object: a str subclass (as templating / i18n libraries return), a string
     # built at run time that shares nothing with the original
     class Markup(str):
-        pass
+        # its own idea of str() / repr(), as (str, Enum) members and lazy-translation strings have; the characters are what counts
+        def __str__(self):
+            return "Markup.MEMBER"
+
+        def __repr__(self):
+            return "<Markup>"
     same(case, "T0 handing the text over as an instance of a str subclass", base, outcome(Markup(text), dflt))
     same(case, "T0 handing the text over as a scanner made from an instance of a str subclass", base, outcome(None, dflt, scanner=gh.TokenScanner(Markup(text))))
     # T2 string -> file (scanner on a path, and the stream's source_event)
